@@ -727,13 +727,15 @@ fn e2_create_vs_remove(tier: Tier, which: u64, ctx: &mut Ctx) {
 			ex.spawn("audio", move || {
 				let mut buf = [0.0f32; 4];
 				for _ in 0..2 {
-					let r = rig::catch(|| {
-						renderer.on_start_processing();
-						renderer.process(&mut buf, 2);
-					});
-					if let Err(p) = r {
+					// the full callback monitors apply to the explored callbacks too (panic, allocation / free on the
+					// audio thread, well-formed samples)
+					let rep = rig::callback_on(&mut renderer, &mut buf, 2, 2);
+					if let Some(p) = rep.panic {
 						obs.lock().unwrap().panics.push(p);
 						break;
+					}
+					if rep.allocs + rep.frees > 0 {
+						obs.lock().unwrap().panics.push(format!("allocation/free on the audio thread (allocs {} frees {})", rep.allocs, rep.frees));
 					}
 				}
 				*back.lock().unwrap() = Some(renderer);
